@@ -282,7 +282,13 @@ def execute(scenario, log=None, baseline=None):
     if "spec" in scenario:
         spec, meta = scenario["spec"], scenario["meta"]
     else:
-        spec, meta = build_spec(scenario["recipe"])
+        try:
+            spec, meta = build_spec(scenario["recipe"])
+        except Exception as e:  # noqa: BLE001
+            # the CLI could not emit a configuration for this option vector (C19 territory): excluded workload
+            return {"violations": [], "states": [], "stats": {}, "fired": {}, "digest": log.digest(),
+                    "excluded": "no specification for this recipe: %s: %s" % (type(e).__name__, str(e)[:200]),
+                    "baseline": {"kind": "unbuildable", "exc": type(e).__name__, "tb": None}}
     dtype = scenario.get("dtype", "float64")
     seed = scenario["seed"]
     recipe = scenario.get("recipe", {})
@@ -300,6 +306,10 @@ def execute(scenario, log=None, baseline=None):
                     "ckpt_positions": [c["position"] for c in ctlA.checkpoints], "tb": getattr(outA, "traceback", None)}
         stats["incarnations"] += 1
         stats["steps"] += ctlA.position
+    if baseline["kind"] == "finished" and baseline["n"] == 0:
+        # main() logged a parse error and returned, or the run had nothing to do: nothing to resume
+        return {"violations": [], "states": [], "stats": stats, "fired": fired, "digest": log.digest(),
+                "excluded": "uninterrupted run performed no step (specification rejected by main(), or zero iterations)", "baseline": baseline}
     if baseline["kind"] != "finished":
         # the scene does not run on this tree: not a C17 matter (excluded workload)
         return {"violations": [], "states": [], "stats": stats, "fired": fired, "digest": log.digest(),
@@ -547,12 +557,17 @@ def scene_recipes(tier, seed, scale):
             args = list(rng.choice(CLI_MODEL_VECTORS))
             if sub == "hmc":
                 args += ["--steps", "2", "--step_size", "0.001"] + rng.choice([[], ["--adapt_step_size", "adaptive"], ["--adapt_step_size", "dualaveraging"], ["--adapt_mass_matrix"]])
+            if sub == "advi":
+                args += rng.choice([[], [], ["-q", "fullrank"], ["-q", "realnvp"], ["--K_grad_samples", "3"], ["--grad_samples", "2"], ["--entropy"], ["--divergence", "KLpq"]])
             it = {"mcmc": 150, "hmc": 6, "advi": 6}[sub]
             out.append({"kind": "cli", "sub": sub, "args": args, "iterations": it, "freq": {"mcmc": 50, "hmc": 2, "advi": 3}[sub], "convergence": rng.bernoulli(0.5)})
         else:
             sub, args, it, fr = rng.choice(clis)
             mult = rng.randint(1, 3)
             out.append({"kind": "cli", "sub": sub, "args": args, "iterations": it * mult, "freq": max(1, fr * mult // rng.choice([1, 2])), "convergence": rng.bernoulli(0.5)})
+    for i, r in enumerate(out):
+        if r["kind"] == "toy_opt" and i % 9 == 4:
+            r["loss"] = "flow"  # weights of torch modules as optimised parameters, every optimiser / scheduler / dtype
     return out
 
 
